@@ -524,8 +524,10 @@ func (i *Interp) placeMode(n *ast.Node, mode placeMode) *place {
 		if i.ruleRoot == nil {
 			rt("unknown variable $")
 		}
-		if mode == mStoreLast && i.ruleKind != "BEGINFILE" && i.ruleKind != "pattern" {
-			un("assigning $ outside BEGINFILE and pattern rules")
+		// (in a BEGIN / END rule $ is a null of that rule's own: C02 says every such rule runs
+		// "with $ null", so an assignment lasts until the rule ends)
+		if mode == mStoreLast && i.ruleKind != "BEGINFILE" && i.ruleKind != "pattern" && i.ruleKind != "BEGIN" && i.ruleKind != "END" {
+			un("assigning $ outside BEGIN, END, BEGINFILE and pattern rules")
 		}
 		if i.ruleKind == "ENDFILE" && i.rootTouched {
 			un("$ in ENDFILE after the root was replaced or resized")
